@@ -1,13 +1,22 @@
-"""C19 - libdialect: graph decompositions partition the graph (DESIGN 5.19).
-proof: Dialect/Peel.v over the hand model Dialect/PeelModel.v (leaf-stripping rounds with the double-centre rule, the
-workspace graph H with tree serial numbers, connected components by fuelled worklist exploration);
+"""C19 - libdialect: graph decompositions partition the graph and planarise it (DESIGN 5.19).
+proof: Dialect/Peel.v + PeelRoot.v over the hand model Dialect/PeelModel.v (leaf-stripping rounds with the double-centre rule,
+the workspace graph H with tree serial numbers, identifyRootNode, connected components by fuelled worklist exploration);
 tie (C): dialect::peel output (core, trees as node/edge sets, roots) and Graph::getConnComps vs the extracted model, exactly,
 on random connected graphs <= 60 nodes, trees (paths, stars, caterpillars, random), cycles with pendant trees, and
 disconnected graphs (components only);
-V: the verified checkers peel_okb / conncomps_okb (sound + complete for the declarative conditions, Peel.v) on the real
-outputs; V-only (no model): Tree::symmetricLayout places no two nodes of a tree on the same position.
-OrthoPlanariser::planarise is NOT covered."""
-import os, tempfile, shutil
+V (verified oracles on real outputs, no model of the C++):
+  * peel_okb / conncomps_okb: sound AND complete for the declarative conditions peel_spec / conncomps_spec_decl
+    (Dialect/PeelCheck.v: fuel adequacy, tree characterisation "connected: acyclic <-> |E|+1=|V|");
+  * Tree::symmetricLayout: trees with non-square / mixed node boxes, all four growth directions, convex and concave ordering;
+    tree_layout_ok (Dialect/TreeLayout.v: iff "no two node boxes share an interior point") on the centres + dimensions;
+  * LeaflessOrthoRouter / RoutingAdapter + OrthoPlanariser::planarise: planarise_ok (Dialect/PlanariseCheck.v: iff
+    "ids distinct, every original node present where it was, open segments of any two result edges disjoint (crossing or
+    collinear overlap), every original edge replaced by a chain whose inner nodes are all new").
+Known findings on the unchanged tree (classifier predicates below): tree_rank_collision, planarise_short_segment,
+planarise_crossing_within_tolerance.  Routing failures inside libavoid (assertion / SIGSEGV in the nudging code, a C15 known
+finding) leave nothing to planarise: counted, bounded by 20%."""
+import os, re, time, tempfile, shutil
+from fractions import Fraction
 from vlib import common as C
 
 PID = 'C19'
@@ -83,6 +92,469 @@ def gen_graphs(rng, tier):
     return out
 
 
+# ---------------------------------------------------------------------------- symmetric tree layout (V)
+DIRS = ['EAST', 'SOUTH', 'WEST', 'NORTH']
+SHAPES = {'wide': [(90, 20)], 'tall': [(20, 90)], 'square': [(30, 30)],
+          'mixed': [(90, 20), (20, 90), (30, 30), (50, 10), (10, 50), (40, 40), (64, 16), (16, 64)]}
+
+
+def gen_trees(rng, tier):
+    """rooted trees (node 0 = root, edges parent -> child) with node dimensions, growth direction, separations.
+    rankSep exceeds every node extent in the main stream (ranks cannot touch); the 'ranksmall' stream (1 in 8) uses a
+    rankSep below the node extents, the family of the known finding tree_rank_collision"""
+    out = []
+    N = 260 if tier == 'quick' else 2500
+    fixed = [('star', 7, [(0, i) for i in range(1, 7)]),
+             ('3x5', 19, [(0, 1 + 6 * c) for c in range(3)] + [(1 + 6 * c, 2 + 6 * c + l) for c in range(3) for l in range(5)]),
+             ('fork', 3, [(0, 1), (0, 2)])]
+    for name, n, es in fixed:
+        for shape in ('wide', 'tall', 'square'):
+            for d in range(4):
+                for convex in (1, 0):
+                    out.append({'kind': name, 'n': n, 'dir': d, 'nodeSep': 10, 'rankSep': 150, 'convex': convex, 'shape': shape,
+                                'dims': [SHAPES[shape][0]] * n, 'edges': es})
+    kinds = ['random', 'fewparents', 'fewparents', 'kary', 'caterpillar', 'deep', 'star', 'twolevel']
+    for _ in range(N):
+        kind = rng.choice(kinds)
+        n = rng.range(2, 40) if rng.chance(2, 3) else rng.range(2, 9)
+        if kind == 'random':
+            es = [(rng.below(v), v) for v in range(1, n)]
+        elif kind == 'fewparents':          # many nodes with several leaf children
+            es = [(rng.below(min(v, 7)), v) for v in range(1, n)]
+        elif kind == 'kary':
+            k = rng.range(2, 4)
+            es = [((v - 1) // k, v) for v in range(1, n)]
+        elif kind == 'caterpillar':
+            spine = max(1, n // 3)
+            es = [(i, i + 1) for i in range(spine - 1)] + [(rng.below(spine), v) for v in range(spine, n)]
+        elif kind == 'deep':
+            es = [(max(0, v - 1 - rng.below(3)), v) for v in range(1, n)]
+        elif kind == 'star':
+            es = [(0, v) for v in range(1, n)]
+        else:                               # root, a few children, leaves below them
+            c = rng.range(1, max(1, min(5, n - 1)))
+            es = [(0, v) for v in range(1, c + 1)] + [(rng.range(1, c), v) for v in range(c + 1, n)]
+        shape = rng.choice(['wide', 'tall', 'square', 'mixed', 'mixed'])
+        dims = [rng.choice(SHAPES[shape]) for _ in range(n)]
+        ext = max(max(w, h) for w, h in dims)
+        small = rng.chance(1, 8)
+        rank_sep = rng.choice([25, 40]) if small else ext + rng.choice([10, 35, 60])
+        out.append({'kind': kind + ('/ranksmall' if small else ''), 'n': n, 'dir': rng.below(4), 'nodeSep': rng.choice([5, 10, 20]),
+                    'rankSep': rank_sep, 'convex': rng.below(2), 'shape': shape, 'dims': dims, 'edges': es})
+    return out
+
+
+def tree_lines(t):
+    return (['T %d %d %d %d %d' % (t['n'], t['dir'], t['nodeSep'], t['rankSep'], t['convex'])] +
+            ['n %d %d %d' % (i, w, h) for i, (w, h) in enumerate(t['dims'])] + ['e %d %d' % e for e in t['edges']])
+
+
+def tree_txt(t):
+    return {'kind': t['kind'], 'nodes': t['n'], 'root': 0, 'growthDir': DIRS[t['dir']], 'nodeSep': t['nodeSep'], 'rankSep': t['rankSep'],
+            'convexOrdering': bool(t['convex']), 'node_dims_w_h': ['%dx%d' % d for d in t['dims']],
+            'edges_parent_child': ['%d-%d' % e for e in t['edges']], 'harness_input': tree_lines(t)}
+
+
+def run_driver(args, timeout=2400):
+    """run the extracted checker; a driver that dies is a tooling failure, not a verdict: retry once, then give up loudly"""
+    for attempt in (1, 2):
+        rc, out, err, dt = C.sh(args, timeout=timeout)
+        if rc == 0:
+            return out, dt
+    raise RuntimeError('extracted C19 driver failed (rc %d): %s\n%s' % (rc, ' '.join(args), err[-2000:]))
+
+
+def hexq(x):
+    f = Fraction(x)
+    return '%s%x/%x' % ('-' if f < 0 else '', abs(f.numerator), f.denominator)
+
+
+def tree_ranks(t):
+    rank, ch = {0: 0}, {}
+    for a, b in t['edges']:
+        ch.setdefault(a, []).append(b)
+    todo = [0]
+    while todo:
+        v = todo.pop()
+        for c in ch.get(v, []):
+            rank[c] = rank[v] + 1
+            todo.append(c)
+    return rank
+
+
+def run_trees(res, rng, tier, tmp, drv, hist):
+    """Tree::symmetricLayout on generated trees; the extracted verified checker tree_layout_ok decides on the real output.
+    returns number of violations reported"""
+    exe = C.build_harness('c19_tree', LIBS, FLAVOR)
+    trees = gen_trees(rng, tier)
+    tf = os.path.join(tmp, 'trees.txt')
+    open(tf, 'w').write('\n'.join(l for t in trees for l in tree_lines(t)) + '\n')
+    rc, out, err, dt = C.sh([exe, tf], timeout=1200)
+    cases = split_cases(out)
+    th = {'trees': len(trees), 'by_kind': {}, 'by_shape': {}, 'by_dir': {}, 'convex': 0, 'concave': 0, 'nodes': 0, 'non_square_nodes': 0,
+          'ranksmall': 0, 'layouts_ok': 0, 'layouts_rank_collision_only': 0, 'overlapping_pairs_rank_collision': 0}
+    hist['symmetric_layout_boxes'] = th
+    if rc != 0:
+        k = max(cases) if cases else 0
+        d = tree_txt(trees[min(k, len(trees) - 1)])
+        d.update({'what': 'harness c19_tree crashed (rc %d) in Tree::symmetricLayout on this tree' % rc, 'stderr': err[-1500:],
+                  'replay': 'harness/c19_tree.cpp <file with harness_input>'})
+        res.violation(d)
+        return 1
+    # driver input: exact rationals of the dumped doubles
+    df = os.path.join(tmp, 'trees_chk.txt')
+    pos = {}
+    with open(df, 'w') as fh:
+        for k, t in enumerate(trees):
+            ls = cases.get(k, [])
+            fh.write('T %d\n' % k)
+            pos[k] = {}
+            for l in ls:
+                f = l.split()
+                if f[0] == 'N':
+                    vals = [Fraction(float(x)) for x in f[2:6]]
+                    pos[k][int(f[1])] = vals
+                    fh.write('N %s %s\n' % (f[1], ' '.join(hexq(v) for v in vals)))
+            fh.write('end\n')
+    c_out, dt = run_driver([drv, 'tree', df])
+    verdict = {}
+    for line in c_out.split('\n'):
+        f = line.split()
+        if len(f) >= 2:
+            verdict[int(f[0])] = f[1:]
+    nviol, samples = 0, []
+    for k, t in enumerate(trees):
+        for key, val in (('by_kind', t['kind']), ('by_shape', t['shape']), ('by_dir', DIRS[t['dir']])):
+            th[key][val] = th[key].get(val, 0) + 1
+        th['convex' if t['convex'] else 'concave'] += 1
+        th['nodes'] += t['n']
+        th['non_square_nodes'] += sum(1 for w, h in t['dims'] if w != h)
+        th['ranksmall'] += 1 if t['kind'].endswith('/ranksmall') else 0
+        ls = cases.get(k, [])
+        v = verdict.get(k, ['missing'])
+        bad, fp = None, None
+        exc = [l for l in ls if l.startswith('EXC')]
+        if exc:
+            bad = 'Tree::symmetricLayout raised an assertion/exception: ' + exc[0][:300]
+        elif len(pos[k]) != t['n']:
+            bad = 'harness returned %d of %d nodes' % (len(pos[k]), t['n'])
+        elif v[0] == 'ok':
+            th['layouts_ok'] += 1
+        elif v[0] == 'BAD':
+            pairs = [tuple(int(x) for x in p.split(',')) for p in v[1:]]
+            rank = tree_ranks(t)
+            vertical = t['dir'] in (1, 3)
+            # known finding tree_rank_collision: the two nodes are on different ranks and their half extents ALONG the growth
+            # axis add up to more than the distance rankSep * |rank difference| the library puts between the rank centre lines
+            def rank_collision(i, j):
+                ei = pos[k][i][3] if vertical else pos[k][i][2]
+                ej = pos[k][j][3] if vertical else pos[k][j][2]
+                return rank[i] != rank[j] and (ei + ej) / 2 > t['rankSep'] * abs(rank[i] - rank[j])
+            others = [p for p in pairs if not rank_collision(*p)]
+            detail = [{'nodes': [i, j], 'ranks': [rank[i], rank[j]],
+                       'centres': [[float(pos[k][i][0]), float(pos[k][i][1])], [float(pos[k][j][0]), float(pos[k][j][1])]],
+                       'dims_w_h': [[float(pos[k][i][2]), float(pos[k][i][3])], [float(pos[k][j][2]), float(pos[k][j][3])]]}
+                      for i, j in (others or pairs)[:6]]
+            if others:
+                bad = ('Tree::symmetricLayout placed two nodes on top of each other: %d overlapping pairs of node boxes (verified checker '
+                       'tree_layout_ok), %d of them not explained by rank collision; first: nodes %d and %d'
+                       % (len(pairs), len(others), others[0][0], others[0][1]))
+            else:
+                fp = 'tree_rank_collision'
+                bad = ('Tree::symmetricLayout: %d overlapping pairs, all between nodes of different ranks whose extents along the growth '
+                       'axis exceed rankSep * rank distance' % len(pairs))
+                th['layouts_rank_collision_only'] += 1
+                th['overlapping_pairs_rank_collision'] += len(pairs)
+        else:
+            bad = 'no verdict from the checker (%s)' % ' '.join(v)
+        if bad and (fp or nviol < 3):
+            d = tree_txt(t)
+            d.update({'what': bad, 'implementation_output': ls[:60], 'checker': ' '.join(v)[:400],
+                      'replay': 'harness/c19_tree.cpp <file with harness_input>; extract/c19_driver.ml tree <N lines as exact rationals>'})
+            if v[0] == 'BAD':
+                d['overlapping'] = detail
+            if res.violation(d, fingerprint=fp):
+                nviol += 1
+        if k % 97 == 3 and len(samples) < 3:
+            samples.append({'tree': tree_txt(t), 'implementation_output': ls[:8], 'checker': v[0]})
+    th['samples'] = samples
+    return nviol
+
+
+# ---------------------------------------------------------------------------- OrthoPlanariser::planarise (V)
+NODE_SIZES = [(30, 30), (30, 30), (40, 20), (20, 40), (50, 30), (24, 24)]
+
+
+def gen_plan_graphs(rng, tier):
+    """connected simple graphs with node boxes that do not overlap, to be routed orthogonally and planarised.
+    router 0 = LeaflessOrthoRouter (needs minimum degree 2), 1 = RoutingAdapter(OrthogonalRouting)"""
+    out = []
+    N = 56 if tier == 'quick' else 400
+    kinds = ['grid', 'grid', 'jitter', 'jitter', 'dense', 'complete', 'circle', 'big']
+    nbig = 0
+    for it in range(N):
+        kind = rng.choice(kinds)
+        router = 0 if rng.chance(2, 3) else 1
+        if kind == 'big':
+            # LeaflessOrthoRouter re-routes up to 4n+1 times: 20 s for 50 nodes; the single-pass adapter takes 1-5 s for 45-60
+            nbig += 1
+            if tier == 'quick':
+                if nbig == 1:
+                    n, router = rng.range(45, 60), 1
+                elif nbig <= 4:
+                    n = rng.range(20, 34)
+                else:
+                    n = rng.range(12, 24)
+            else:
+                n = rng.range(30, 44) if router == 0 else rng.range(30, 60)
+        elif kind == 'complete':
+            n = rng.range(4, 7)
+        elif kind == 'dense':
+            n = rng.range(5, 12)
+        else:
+            n = rng.range(3, 24)
+        if n < 3:
+            router = 1
+        # positions
+        sp = rng.choice([100, 120, 150])
+        if kind == 'circle':
+            import math
+            rad = max(120, 25 * n)
+            pos = [(int(round(rad * math.cos(2 * math.pi * i / n))), int(round(rad * math.sin(2 * math.pi * i / n)))) for i in range(n)]
+        else:
+            cols = max(2, int(n ** 0.5 + 0.999))
+            cells = rng.shuffle([(c, r) for r in range((n + cols - 1) // cols + 1) for c in range(cols)])[:n]
+            jit = 0 if kind in ('grid', 'complete') or (kind in ('dense', 'big') and rng.chance(1, 2)) else 1
+            pos = [(c * sp + jit * 10 * rng.range(-2, 2), r * sp + jit * 10 * rng.range(-2, 2)) for c, r in cells]
+        dims = [rng.choice(NODE_SIZES) for _ in range(n)]
+        # edges
+        if kind == 'complete':
+            es = [(a, b) for a in range(n) for b in range(a + 1, n)]
+        else:
+            if router == 0:
+                perm = rng.shuffle(list(range(n)))
+                es = [(perm[i], perm[(i + 1) % n]) for i in range(n)]
+            else:
+                es = [(rng.below(v), v) for v in range(1, n)]
+            extra = {'dense': n, 'big': n // 3}.get(kind, rng.below(n // 2 + 2))
+            for _ in range(extra):
+                a, b = rng.below(n), rng.below(n)
+                if a != b:
+                    es.append((a, b))
+        seen, ses = set(), []
+        for a, b in es:
+            k = (min(a, b), max(a, b))
+            if a != b and k not in seen:
+                seen.add(k)
+                ses.append((a, b) if rng.chance(1, 2) else (b, a))
+        buf = rng.choice([0, 0, 125])
+        out.append({'kind': kind, 'n': n, 'router': router, 'buf': buf, 'pos': pos, 'dims': dims, 'edges': ses})
+    return out
+
+
+def plan_lines(g):
+    return (['P %d %d %d' % (g['n'], g['router'], g['buf'])] +
+            ['n %d %d %d %d %d' % (i, g['pos'][i][0], g['pos'][i][1], g['dims'][i][0], g['dims'][i][1]) for i in range(g['n'])] +
+            ['e %d %d' % e for e in g['edges']])
+
+
+def plan_txt(g):
+    return {'kind': g['kind'], 'nodes': g['n'], 'router': ['LeaflessOrthoRouter', 'RoutingAdapter(OrthogonalRouting)'][g['router']],
+            'shapeBufferDistanceIELScalar': g['buf'] / 1000.0,
+            'node_centre_dims': ['%d:(%d,%d) %dx%d' % (i, g['pos'][i][0], g['pos'][i][1], g['dims'][i][0], g['dims'][i][1]) for i in range(g['n'])],
+            'edges': ['%d-%d' % e for e in g['edges']], 'harness_input': plan_lines(g)}
+
+
+def short_segments(ls):
+    """the family of the known finding planarise_short_segment, computed from the routed INPUT of the planariser (R lines):
+    two distinct route points on one horizontal run (|dy| <= 0.5, both covered by one route segment of that line) whose x
+    distance is at most 0.8 (the x-partition tolerance of computeCrossings), or on one vertical run with y distance at most 1.0
+    (TOLERANCE of CompareActiveEvents).  returns [('H'|'V', line coordinate, (x,y), (x,y))]"""
+    routes = []
+    for l in ls:
+        f = l.split()
+        if f[0] == 'R':
+            v = [float(x) for x in f[4:]]
+            routes.append([(v[i], v[i + 1]) for i in range(0, len(v), 2)])
+    pts = sorted(set(p for r in routes for p in r))
+    out = []
+    for r in routes:
+        for a, b in zip(r, r[1:]):
+            horiz = abs(b[1] - a[1]) <= abs(b[0] - a[0])
+            c, v = (1, 0) if horiz else (0, 1)            # index of the constant / the variable coordinate
+            lo, hi = min(a[v], b[v]), max(a[v], b[v])
+            on = sorted((p for p in pts if abs(p[c] - a[c]) <= 0.5 and lo - 0.5 <= p[v] <= hi + 0.5), key=lambda p: p[v])
+            for p, q in zip(on, on[1:]):
+                gap = q[v] - p[v]
+                if 0 < gap <= (0.8 if horiz else 1.0):
+                    out.append(('H' if horiz else 'V', a[c], p, q))
+    return out
+
+
+def classify_plan_failure(ls, v):
+    """fingerprint of a known finding or None.  ls: harness output lines of the case, v: checker verdict fields"""
+    flags = dict(x.split('=') for x in v[1:5])
+    if not (flags.get('nodup') == '1' and flags.get('present') == '1' and flags.get('chains') == '1' and flags.get('nocross') == '0'):
+        return None, None
+    shorts = short_segments(ls)
+    pos, edges = {}, []
+    for l in ls:
+        f = l.split()
+        if f[0] == 'N':
+            pos[f[1]] = (float(f[2]), float(f[3]))
+        elif f[0] == 'E':
+            edges.append((f[1], f[2]))
+    def bogus(i):
+        # an edge lying on the line of a short segment with one end at an end point of that short segment: the kind of edge
+        # computeCrossings produces when the short segment's OPEN event is never closed
+        a, b = pos[edges[i][0]], pos[edges[i][1]]
+        for kind, coord, p, q in shorts:
+            c = 1 if kind == 'H' else 0
+            if abs(a[c] - coord) <= 0.5 and abs(b[c] - coord) <= 0.5:
+                for e in (a, b):
+                    for s in (p, q):
+                        if abs(e[0] - s[0]) <= 0.5 and abs(e[1] - s[1]) <= 0.5:
+                            return True
+        return False
+    def near_end_crossing(i, j):
+        # everything the two open edges have in common (a crossing point, or a collinear stretch) lies at most 1.0
+        # (Chebyshev) from one end point of one of them: computeCrossings sorts events with tolerances (x-parts 0.8,
+        # CompareActiveEvents 1.0) and takes such a crossing for the end of the segment
+        a, b = pos[edges[i][0]], pos[edges[i][1]]
+        c, d = pos[edges[j][0]], pos[edges[j][1]]
+        den = (b[0] - a[0]) * (d[1] - c[1]) - (b[1] - a[1]) * (d[0] - c[0])
+        if den == 0:
+            # collinear overlap: the whole common stretch lies within 1.0 of one end point
+            ax = 0 if abs(b[0] - a[0]) >= abs(b[1] - a[1]) else 1
+            lo = max(min(a[ax], b[ax]), min(c[ax], d[ax]))
+            hi = min(max(a[ax], b[ax]), max(c[ax], d[ax]))
+            return lo < hi and any(abs(lo - e[ax]) <= 1.0 and abs(hi - e[ax]) <= 1.0 and abs(e[1 - ax] - a[1 - ax]) <= 1.0
+                                   for e in (a, b, c, d))
+        t = ((c[0] - a[0]) * (d[1] - c[1]) - (c[1] - a[1]) * (d[0] - c[0])) / den
+        x = (a[0] + t * (b[0] - a[0]), a[1] + t * (b[1] - a[1]))
+        return min(max(abs(x[0] - e[0]), abs(x[1] - e[1])) for e in (a, b, c, d)) <= 1.0
+    pairs = [tuple(int(x) for x in v[i + 1].split(',')) for i in range(len(v) - 1) if v[i] == 'X']
+    if not pairs:
+        return None, shorts
+    kinds = set()
+    for i, j in pairs:
+        if shorts and (bogus(i) or bogus(j)):
+            kinds.add('planarise_short_segment')
+        elif near_end_crossing(i, j):
+            kinds.add('planarise_crossing_within_tolerance')
+        else:
+            return None, shorts
+    return ('planarise_short_segment' if 'planarise_short_segment' in kinds else 'planarise_crossing_within_tolerance'), shorts
+
+
+def run_planarise(res, rng, tier, tmp, drv, hist):
+    """orthogonal routing + OrthoPlanariser::planarise on generated graphs; the extracted verified checker planarise_ok decides"""
+    exe = C.build_harness('c19_plan', LIBS, FLAVOR)
+    graphs = gen_plan_graphs(rng, tier)
+    pf = os.path.join(tmp, 'plan.txt')
+    open(pf, 'w').write('\n'.join(l for g in graphs for l in plan_lines(g)) + '\n')
+    rc, out, err, dt = C.sh([exe, pf], timeout=2400)
+    cases = split_cases(out)
+    ph = {'graphs': len(graphs), 'by_kind': {}, 'by_router': {}, 'max_nodes': 0, 'input_edges': 0, 'routed_bends': 0, 'result_nodes': 0,
+          'result_edges': 0, 'new_nodes': 0, 'ok': 0, 'routing_failed': {}, 'harness_s': round(dt, 2)}
+    hist['planarise'] = ph
+    if rc != 0:
+        k = max(cases) if cases else 0
+        d = plan_txt(graphs[min(k, len(graphs) - 1)])
+        d.update({'what': 'harness c19_plan crashed (rc %d) while routing/planarising this graph' % rc, 'stderr': err[-1500:],
+                  'replay': 'harness/c19_plan.cpp <file with harness_input>'})
+        res.violation(d)
+        return 1
+    df = os.path.join(tmp, 'plan_chk.txt')
+    with open(df, 'w') as fh:
+        for k, g in enumerate(graphs):
+            # exact values of the dumped doubles, all multiplied by one power of two per graph so that they are integers
+            # (exact; a similarity of the plane, under which every clause of planarise_spec is invariant)
+            rn = [(l.split()[1], Fraction(float(l.split()[2])), Fraction(float(l.split()[3]))) for l in cases.get(k, []) if l.startswith('N ')]
+            scale = max([1] + [x.denominator for _, a, b in rn for x in (a, b)])
+            fh.write('P %d\n' % k)
+            for i in range(g['n']):
+                fh.write('O %d %s %s\n' % (i, hexq(g['pos'][i][0] * scale), hexq(g['pos'][i][1] * scale)))
+            for a, b in g['edges']:
+                fh.write('F %d %d\n' % (a, b))
+            for nm, a, b in rn:
+                fh.write('N %s %s %s\n' % (nm, hexq(a * scale), hexq(b * scale)))
+            for l in cases.get(k, []):
+                if l.startswith('E '):
+                    fh.write(l + '\n')
+            fh.write('end\n')
+    c_out, dt = run_driver([drv, 'plan', df])
+    ph['checker_s'] = round(dt, 2)
+    verdict = {}
+    for line in c_out.split('\n'):
+        f = line.split()
+        if len(f) >= 2:
+            verdict[int(f[0])] = f[1:]
+    nviol, samples = 0, []
+    for k, g in enumerate(graphs):
+        ph['by_kind'][g['kind']] = ph['by_kind'].get(g['kind'], 0) + 1
+        ph['by_router'][str(g['router'])] = ph['by_router'].get(str(g['router']), 0) + 1
+        ph['max_nodes'] = max(ph['max_nodes'], g['n'])
+        ph['input_edges'] += len(g['edges'])
+        ls = cases.get(k, [])
+        rn = [l for l in ls if l.startswith('N ')]
+        re_ = [l for l in ls if l.startswith('E ')]
+        ph['routed_bends'] += sum(int(l.split()[3]) - 2 for l in ls if l.startswith('R '))
+        ph['result_nodes'] += len(rn)
+        ph['result_edges'] += len(re_)
+        ph['new_nodes'] += sum(1 for l in rn if l.endswith(' 0'))
+        v = verdict.get(k, ['missing'])
+        exc = [l for l in ls if l.startswith('EXC') or l.startswith('CRASH')]
+        routed = any(l.startswith('R ') for l in ls)
+        bad, fp = None, None
+        if exc and exc[0].startswith('CRASH') and not routed:
+            exc = ['EXC-ROUTE process died while routing: ' + exc[0]]
+        if exc and exc[0].startswith('EXC-ROUTE'):
+            # libavoid failed while routing (e.g. the nudging assertion that is a known finding of C15/C14): there is no
+            # orthogonally routed graph, so the property has nothing to judge; counted, and bounded below
+            m = re.search(r'expression: (.*?)\s+at line', exc[0])
+            key = (m.group(1) if m else re.sub(r'^EXC-ROUTE ', '', exc[0]))[:100]
+            ph['routing_failed'][key] = ph['routing_failed'].get(key, 0) + 1
+        elif exc:
+            bad = 'OrthoPlanariser::planarise raised an assertion/exception: ' + exc[0][:300]
+        elif v[0] == 'ok':
+            ph['ok'] += 1
+        elif v[0] == 'BAD':
+            flags = dict(x.split('=') for x in v[1:5])
+            what = []
+            if flags.get('nodup') == '0':
+                what.append('node ids of the planarised graph are not distinct')
+            if flags.get('present') == '0':
+                what.append('an original node is missing from the planarised graph or has moved')
+            if flags.get('nocross') == '0':
+                xs = [v[i + 1] for i in range(len(v) - 1) if v[i] == 'X']
+                what.append('edges of the planarised graph cross or overlap (or join unknown nodes): pairs of result-edge indices ' + ' '.join(xs[:8]))
+            if flags.get('chains') == '0':
+                cs = [v[i + 1] for i in range(len(v) - 1) if v[i] == 'C']
+                what.append('former neighbours are not connected through a chain of new nodes: original edges ' + ' '.join(cs[:8]))
+            bad = 'OrthoPlanariser::planarise output fails the verified checker planarise_ok: ' + '; '.join(what)
+            fp, shorts = classify_plan_failure(ls, v)
+            if fp:
+                ph['known_' + fp] = ph.get('known_' + fp, 0) + 1
+        else:
+            bad = 'no verdict from the checker (%s)' % ' '.join(v)
+        if bad and (fp or nviol < 3):
+            d = plan_txt(g)
+            d.update({'what': bad, 'implementation_output': ls[:200], 'checker': ' '.join(v)[:600],
+                      'replay': 'harness/c19_plan.cpp <file with harness_input>; extract/c19_driver.ml plan <O/F/N/E lines as exact rationals>'})
+            if res.violation(d, fingerprint=fp):
+                nviol += 1
+        if k % 23 == 3 and len(samples) < 3:
+            samples.append({'graph': plan_txt(g), 'implementation_output': ls[:12], 'checker': v[0]})
+    ph['samples'] = samples
+    nfail = sum(ph['routing_failed'].values())
+    if nfail * 5 > len(graphs) and nviol == 0:
+        res.violation({'what': 'orthogonal routing failed on %d of %d generated graphs: the planarise part of the property is hardly exercised' % (nfail, len(graphs)),
+                       'routing_failed': ph['routing_failed']}, no_input=True)
+        nviol += 1
+    return nviol
+
+
 def write_graphs(path, graphs):
     with open(path, 'w') as fh:
         for kind, n, peel, es in graphs:
@@ -112,7 +584,10 @@ def run(tier):
     res = C.Result(PID, tier, 'proof')
     info = C.prove(res, PID)
     res.assumptions = ['the hand model PeelModel.v describes dialect::peel / Graph::getConnComps (compared exactly on every generated graph)',
-                       'node ids handed out by Node::allocate increase (checked by the harness), so that id order = input order']
+                       'node ids handed out by Node::allocate increase (checked by the harness), so that id order = input order',
+                       'symmetricLayout and planarise are not modelled: verified checkers judge the real outputs of the generated inputs only',
+                       'planarise: the doubles of one output are multiplied by one power of two before the checker sees them (exact; '
+                       'every clause of planarise_spec is invariant under that similarity)']
     rng = C.SplitMix64(C.get_seed())
     exe = C.build_harness('c19_peel', LIBS, FLAVOR)
     drv = C.ocaml_build('c19', 'C19.v', 'c19_driver.ml', 'c19_model.ml')
@@ -130,8 +605,8 @@ def run(tier):
         return res.finish()
     of = os.path.join(tmp, 'out.txt')
     open(of, 'w').write(h_out)
-    rc, m_out, err, dt = C.sh([drv, 'model', gf], timeout=1200)
-    rc2, c_out, err2, dt = C.sh([drv, 'check', gf, of], timeout=1200)
+    m_out, dt = run_driver([drv, 'model', gf])
+    c_out, dt = run_driver([drv, 'check', gf, of])
     H, M = split_cases(h_out), split_cases(m_out)
     verdict = {}
     for line in c_out.split('\n'):
@@ -207,14 +682,20 @@ def run(tier):
                        'note': 'NodeBuckets sizes m_buckets(maxDegree+1) and takeLeaves reads m_buckets[1] (peeling.cpp:112-134)',
                        'replay': 'harness/c19_peel.cpp <file containing "G 1 1">'})
     hist['edgeless_run'] = 'rc %d' % rc
-    nontriv = hist['trees'] + hist['disconnected']
+    # V: Tree::symmetricLayout, node boxes judged by the verified checker tree_layout_ok
+    prop_viol += run_trees(res, rng.fork(), tier, tmp, drv, hist)
+    evals += hist['symmetric_layout_boxes']['trees']
+    # V: orthogonal routing + OrthoPlanariser::planarise, judged by the verified checker planarise_ok
+    prop_viol += run_planarise(res, rng.fork(), tier, tmp, drv, hist)
+    evals += hist['planarise']['graphs']
+    nontriv = hist['trees'] + hist['disconnected'] + hist['symmetric_layout_boxes']['trees'] + hist['planarise']['ok']
     res.cov.update({'evaluations': evals, 'distinct_nontrivial': nontriv,
                     'rule': 'one evaluation per getConnComps run and per peel run; non-trivial = number of trees peeled off (each compared '
                             'node-for-node, edge-for-edge, root) + disconnected graphs decomposed',
                     'samples': samples, 'traces_validated_against_impl': evals, 'input_distribution': hist,
                     'correspondence_disagreements': corr_diffs[:5],
-                    'v_only': 'Tree::symmetricLayout (no two nodes of a tree at the same position) is checked on the real output only; '
-                              'OrthoPlanariser::planarise is not covered'})
+                    'v_only': 'Tree::symmetricLayout (tree_layout_ok: no two node boxes overlap) and OrthoPlanariser::planarise '
+                              '(planarise_ok) are judged on real outputs by extracted checkers proved sound and complete; the C++ is not modelled'})
     if prop_viol == 0 and (not info['ok'] or corr_diffs):
         res.violation({'what': 'proof obligation or model/implementation correspondence no longer checks; the verified checkers found no '
                                'failing input among %d graphs' % len(graphs),
@@ -231,6 +712,8 @@ def replay(path):
 
 def warm():
     C.build_harness('c19_peel', LIBS, FLAVOR)
+    C.build_harness('c19_tree', LIBS, FLAVOR)
+    C.build_harness('c19_plan', LIBS, FLAVOR)
     C.ocaml_build('c19', 'C19.v', 'c19_driver.ml', 'c19_model.ml')
 
 
@@ -238,25 +721,39 @@ META = {
     'property_id': PID,
     'level_claimed': {
         'category': 'proof',
-        'text': 'Coq theorems over a hand model of dialect::peel and Graph::getConnComps, for EVERY connected simple graph (no size bound): '
+        'text': 'PROOF (Coq, hand model of dialect::peel and Graph::getConnComps, for EVERY connected simple graph, no size bound): '
                 'peel_nodes_partition (core nodes and stem leaves pairwise distinct; with the stem roots they are exactly the input nodes; '
                 'with a non-empty core every root is a core node or a later leaf), peel_edges_partition (up to orientation each input edge '
                 'is a core edge or the edge of exactly one stem; the double-centre pop_back is what makes this true), peel_core_no_leaves, '
-                'peel_trees_are_trees_partial (the trees returned by peel partition the stem nodes, each is connected by its own edges, '
-                'closed, and a forest built by pendant-edge attachment = acyclic), conncomps_partition (components partition the nodes, each '
-                'connected, no edge leaves a component), explore_reach. The proofs need and prove: removing non-adjacent degree-1 nodes keeps a '
-                'graph connected; two adjacent leaves of a connected graph are the whole graph. Tie: exact comparison of the model with the '
-                'compiled library on generated graphs every run + checkers on the real outputs.',
+                'peel_trees_are_trees (the trees returned by peel partition the stem nodes, each is connected by its own edges, closed, and a '
+                'forest built by pendant-edge attachment; forest_acyclic: such a forest has no cycle = every edge is a bridge), '
+                'peel_root_unique (the node identifyRootNode picks by the tree serial numbers is never peeled as a leaf, every other node of '
+                'its tree is a peeled leaf, and with a non-empty core it is a core node and the only node the tree shares with the core), '
+                'conncomps_partition, explore_reach, explore_fuel_adequate (the exploration fuel always suffices). '
+                'PROOF (checker correctness, Coq): peel_okb_iff / conncomps_okb_iff (the checkers run on the real peel / getConnComps outputs '
+                'are sound and complete for the declarative conditions: node and edge partition, every tree connected and acyclic, roots the '
+                'only shared nodes, no degree-1 core node), via tree_char (a connected graph is acyclic iff |E|+1=|V|); tree_layout_ok_iff '
+                '(no two node boxes share an interior point); meet_b_ok (open segments share a point: proper crossing or collinear overlap) and '
+                'planarise_ok_iff (ids distinct, original nodes present in place, open result edges pairwise disjoint, every original edge '
+                'replaced by a chain of new nodes). '
+                'Tie: exact comparison of the peel/conncomps model with the compiled library on generated graphs every run (C) + the verified '
+                'checkers on the real outputs of peel, getConnComps, Tree::symmetricLayout and OrthoPlanariser::planarise (V).',
         'design_ref': 'DESIGN.md 5.19'},
-    'level_note': 'PARTIAL: (1) that the root chosen by the tree serial numbers (identifyRootNode) is the unique non-leaf / core node of its '
-                  'tree is not proved (checked on every real output: peel_okb requires root in core and the partition with the root removed); '
-                  '(2) the checkers peel_okb / conncomps_okb are executable Gallina run on real outputs, built on the verified explore '
-                  '(explore_reach), but their soundness/completeness theorem is not yet proved - they count as validation (V); tree-ness in the '
-                  'checker is "connected and |E|+1=|V|"; (3) NodeBuckets bookkeeping is abstracted to "degree = 1 now" (compared exactly). '
-                  'V-only, no model: Tree::symmetricLayout (no two nodes of a tree at one position). NOT covered: OrthoPlanariser::planarise '
-                  '(no crossing / node preservation), faces. Trusted: Coq kernel; the hand model PeelModel.v; extraction + OCaml/C++ drivers. '
-                  'No fuel exhaustion can make a theorem true: statements require Ok/Some; fuel adequacy itself is not proved (the check '
-                  'reports OUTOFFUEL as a disagreement).',
-    'technique': 'Coq proof (loop invariant over leaf-stripping rounds, reachability, forest construction) over a hand-written Gallina model + '
-                 'exact correspondence with the compiled C++ + executable checkers on real outputs',
+    'level_note': 'What is proof about the CODE (through the hand model, tied by exact correspondence): peeling and connected components, '
+                  'including root choice. What is V-ONLY (verified oracle on sampled real outputs, the C++ itself not modelled): '
+                  'Tree::symmetricLayout (trees <= 40 nodes with 90x20 / 20x90 / 30x30 / mixed boxes, 4 growth directions, convex and concave '
+                  'ordering, nodeSep 5-20) and LeaflessOrthoRouter|RoutingAdapter + OrthoPlanariser::planarise (connected graphs <= 60 nodes on '
+                  'grids, jittered grids, circles, K4-K7, dense). A source change there shows only as a checker rejecting a real output. '
+                  'Known findings on the unchanged tree, each a classifier predicate in this file: tree_rank_collision (ranks rankSep apart '
+                  'between centres whatever the node extents), planarise_short_segment and planarise_crossing_within_tolerance (sorting '
+                  'tolerances 0.8 / 1.0 of computeCrossings leave crossings / overlaps next to segment ends). Graphs on which libavoid fails while '
+                  'routing (nudging assertion or SIGSEGV at orthogonal.cpp:3206, a C15 known finding) are outside the domain (no routed graph): '
+                  'counted in the evidence, the check fails if they exceed 20%. '
+                  'NodeBuckets bookkeeping is abstracted to "degree = 1 now" (compared exactly); faces.cpp is not covered. '
+                  'Trusted: Coq kernel; the hand model PeelModel.v; extraction + OCaml/C++ drivers; the exact double->rational conversion and the '
+                  'per-graph power-of-two scaling of planarise coordinates in this file. No axioms (Print Assumptions: closed). No fuel '
+                  'exhaustion can make a theorem true: statements require Ok/Some, and explore_fuel_adequate shows the checkers never run dry.',
+    'technique': 'Coq proof (loop invariant over leaf-stripping rounds, reachability, forest construction, serial-number invariant, edge-count '
+                 'characterisation of trees, exact segment-intersection decider over Q) over a hand-written Gallina model + exact correspondence '
+                 'with the compiled C++ + extracted checkers proved sound and complete, run on real outputs',
 }
